@@ -281,6 +281,71 @@ pub fn main(args: &[String]) {
             });
             rep.sample(ev.get(3).cloned().unwrap_or(json!(null)));
         }
+        Some("big") => {
+            // more rows of one shape than one ItemVariationData can hold (65535): the builder has to split the encoding
+            // and the returned indices must follow. Every row is checked here through the reader (flagged below);
+            // a sample of rows (around the split and spread over the whole store) is shipped to IvsTrace with the raw
+            // bytes of that row.
+            let rows: usize = arg_after(args, "--rows").map(|s| s.parse().unwrap()).unwrap_or(70000);
+            let ra = json!([[0, 4, 4], [0, 0, 0]]);
+            let rb = json!([[0, 0, 0], [0, 4, 4]]);
+            let mut sets: Vec<(i32, i32)> = (0..rows).map(|i| (200 + (i / 300) as i32, -200 - (i % 300) as i32)).collect();
+            sets.extend((0..50).map(|i| (100000 + i, 5)));
+            sets.extend((0..50).map(|i| (i - 25, 0)));
+            rep.evaluations += sets.len() as u64;
+            let case = json!({"kind": "ivs-big", "rows": rows});
+            let r = guarded(|| {
+                let mut b = VariationStoreBuilder::new(2);
+                let ids: Vec<_> = sets.iter().map(|(a, bb)| b.add_deltas(vec![(region_of(&ra), *a), (region_of(&rb), *bb)])).collect();
+                let (store, remap) = b.build();
+                let bytes = write_fonts::dump_table(&store).map_err(|e| format!("{e}"))?;
+                let idx: Vec<Option<(u16, u16)>> = ids.iter().map(|i| remap.get(*i).map(|v| (v.delta_set_outer_index, v.delta_set_inner_index))).collect();
+                Ok::<_, String>((bytes, idx))
+            });
+            match r {
+                Err(p) => rep.violation(&format!("VariationStoreBuilder panicked: {p}"), case),
+                Ok(Err(e)) => rep.violation(&format!("variation store does not compile: {e}"), case),
+                Ok(Ok((bytes, idx))) => (|| {
+                    let Ok(store) = RStore::read(FontData::new(&bytes)) else { return rep.violation("compiled store does not parse", case.clone()) };
+                    let Ok(rl) = store.variation_region_list() else { return rep.violation("compiled store has no region list", case.clone()) };
+                    let regions: Vec<Value> = rl.variation_regions().iter().flatten().map(|r| json!(r.region_axes().iter().map(|a| vec![a.start_coord().to_bits() as i32 / Q, a.peak_coord().to_bits() as i32 / Q, a.end_coord().to_bits() as i32 / Q]).collect::<Vec<_>>())).collect();
+                    let datas: Vec<_> = store.item_variation_data().iter().map(|d| d.and_then(|d| d.ok())).collect();
+                    rep.add("big_store_subtables", datas.len() as u64);
+                    let at_a = [F2Dot14::from_bits(16384), F2Dot14::from_bits(0)];
+                    let at_b = [F2Dot14::from_bits(0), F2Dot14::from_bits(16384)];
+                    let mut wrong = 0u64;
+                    let mut first_wrong = None;
+                    for (k, ((a, b), ix)) in sets.iter().zip(idx.iter()).enumerate() {
+                        let Some((o, i)) = ix else {
+                            wrong += 1;
+                            first_wrong.get_or_insert(json!({"row": k, "why": "no index"}));
+                            continue;
+                        };
+                        let di = DeltaSetIndex { outer: *o, inner: *i };
+                        let got = (store.compute_delta(di, &at_a).ok(), store.compute_delta(di, &at_b).ok());
+                        if got != (Some(*a), Some(*b)) {
+                            wrong += 1;
+                            first_wrong.get_or_insert(json!({"row": k, "added": [a, b], "index": [o, i], "read": [got.0, got.1]}));
+                        }
+                        let sampled = k % 1499 == 0 || (65500..65600).contains(&k) || k + 120 >= sets.len();
+                        if sampled {
+                            let Some(Some(d)) = datas.get(*o as usize) else { continue };
+                            let all = d.delta_sets();
+                            let n = d.item_count() as usize;
+                            let rs = if n == 0 { 0 } else { all.len() / n };
+                            let row = all.get(*i as usize * rs..(*i as usize + 1) * rs).unwrap_or(&[]);
+                            ev.push(json!({"op": "ivs_row", "regions": regions, "n_datas": datas.len(), "outer": o, "inner": i, "item_count": n,
+                                "word_count": d.word_delta_count(), "region_indexes": d.region_indexes().iter().map(|x| x.get()).collect::<Vec<_>>(),
+                                "row_bytes": row, "added": [{"region": ra, "delta": a}, {"region": rb, "delta": b}]}));
+                            rep.distinct += 1;
+                        }
+                    }
+                    if wrong > 0 {
+                        rep.violation(&format!("{wrong} of {} delta sets are not retrievable through the index the builder returned, first: {}", sets.len(), first_wrong.unwrap()), case.clone());
+                    }
+                })(),
+            }
+        }
         Some("random") => {
             let seed: u64 = arg_after(args, "--seed").map(|s| s.parse().unwrap()).unwrap_or(0);
             let n: usize = arg_after(args, "--n").map(|s| s.parse().unwrap()).unwrap_or(100);
